@@ -23,6 +23,8 @@ CLAIMED = {
          "typestate/ordering via must-facts at send sites with secrecy taint declassified at exponentiation; frozen guard inventory"),
  'C12': ("Static taint-to-sink analysis with sanitizer facts over what is reachable from the wire entry points: every element access on/with untrusted data in the OpenPGP decoders, importers and verifiers satisfies index < capacity (sound linear prover over the must-facts); assertions on untrusted data are dominated by an explicit guard locally or at every tainting call site; wire moduli are non-zero; no null constant reaches GMP; allocations / stack arrays / resizes sized by decoded integers are bounded; variadic hashes do not read past their arguments. A closed list of sink kinds, not absence of all memory errors; integer wrap-around, raw-buffer capacities and termination are not claimed.", "§3 C12",
          "interprocedural taint (value and shape) to a closed list of sinks, discharged by must-facts and a linear prover"),
+ 'C13': ("Static structure check of both channel implementations: a flag-aware must-pass-through analysis shows that with authentication enabled the received integer is written, true is returned and the receive counter advances only through the success edge of the MAC verification; both sides MAC line, delimiter and per-link sequence number; the tag is taken only when maclen octets follow the delimiter and the remainder is moved by the amount the pointer is set to; read() is bounded by the free space of a buffer allocated with that size; length hiding is symmetric; select and nonblock agree. Delivery under all fragmentations and schedules is not decided.", "§3 C13",
+         "must-pass-through over the CFG with boolean flags in the path condition; send/receive pairing by symbolic terms; sibling agreement"),
 }
 NA = {
  'C01': "algebraic identity over runtime group elements for all masking chains; no clause visible in code shape beyond what C03/C05/C08/C12 claim",
